@@ -78,7 +78,7 @@ def run(ctx):
 
     ctx.rule = (
         "history = fresh Transport::udp (edge/level triggered, batched/unbatched loop, small SO_SNDBUF, small write queue, "
-        "ioReadChunk 65536|65507, maxSessions 0|2..6) with 1-2 listeners and 2-8 raw UDP peers on 127.0.0.1 or ::1; 30-70 seeded steps out of {peer batch -> listener, "
+        "ioReadChunk 65536|65507, maxSessions 0|2..6) with 1-2 listeners and 2-8 raw UDP peers on 127.0.0.0/8, ::1, or IPv4+IPv6 peers against a dual-stack :: listener; 30-70 seeded steps out of {peer batch -> listener, "
         "peer -> connected session, foreign peer -> connected port, send on open/closed/unknown session, sends to several "
         "destinations under an injected EAGAIN burst, connect, connectViaListener (biased to peers that already have a "
         "receiving session), close (biased to *other* sessions of such a peer), oversize send (error close), both-way burst "
@@ -91,7 +91,7 @@ def run(ctx):
         "that peer's datagrams there and no new accept for it occurs, whatever else is closed. distinct = hash of the "
         "configuration coordinates and of which of those situations the history actually reached")
     ctx.assumptions = [
-        "loopback only (127.0.0.1; ::1 in ~15 % of the histories, one family per history); ioReadChunk >= 65507 (a smaller configured chunk cuts by configuration)",
+        "loopback only: listeners on 127.0.0.1, on ::1 (~15 %) or on the dual-stack wildcard :: (~15 %, IPv4 raw peers then appear as ::ffff:127.x.y.z next to ::1 peers; a v4-mapped address and its IPv4 spelling are the same address for every comparison); in ~40 % of the IPv4/dual histories some raw peers bind to other addresses of 127.0.0.0/8, a few sharing a port number with another peer; ioReadChunk >= 65507 (a smaller configured chunk cuts by configuration)",
         "maxSessions is 0 or, in ~15 % of the mix histories, 2..6: at the cap the engine may refuse a peer that has no receiving session (an undelivered datagram of such a peer is excused only if the number of announced-and-not-closed sessions reached the cap while it was in flight; counted); peers with an open receiving session are judged as always",
         "EAGAIN from send/sendto is injected for iora's I/O thread by interposition (a legal kernel answer; real loopback sockets never fill their send buffer); payloads are never altered",
         "a datagram is 'delivered by the kernel' when sendto returned its full length and the drops column of /proc/net/udp{,6} for the destination socket stayed 0; raw sockets additionally report SO_RXQ_OVFL",
@@ -106,7 +106,8 @@ def run(ctx):
         "idle_expiry_of_other_session_while_receiving_session_open", "closes_by_app", "closes_idle_expiry", "closes_on_error",
         "eagain_injected", "eagain_injected_on_listener_socket", "eagain_injected_on_connected_socket",
         "eagain_bursts_with_several_destinations_queued", "delivered_65507", "wire_65507", "delivered_lt_16", "wire_lt_16",
-        "histories_two_listeners", "histories_ipv6", "histories_session_cap",
+        "histories_two_listeners", "histories_ipv6", "histories_dual_stack_with_several_v4_mapped_peers",
+        "histories_peers_on_other_127_addresses", "histories_session_cap",
         "datagrams_from_peer_with_receiving_session_sent_at_session_cap", "histories_batched_loop", "histories_level_triggered", "histories_small_sndbuf",
         "histories_small_write_queue", "kernel_drop_counters_read", "step_burst_both_ways",
         "step_send_on_closed_or_unknown_session", "foreign_datagram_to_connected_port_not_delivered")
